@@ -227,6 +227,8 @@ type Config struct {
 	// BigStore: the protection store starts out holding records of 1500 other validators (so that anything
 	// the daemon does to the whole store at start-up takes a noticeable time)
 	BigStore bool `json:"big_store,omitempty"`
+	// GenerationTimeout, if set, is written as process.generation-timeout (for example "2s")
+	GenerationTimeout string `json:"generation_timeout,omitempty"`
 }
 
 var (
@@ -357,6 +359,10 @@ func (d *Daemon) Start() error {
 		if d.cfg.RelStorage {
 			storagePath = "protection"
 		}
+		processCfg := map[string]any{"generation-passphrase": fileURL(filepath.Join(d.Dir, "pass.txt"))}
+		if d.cfg.GenerationTimeout != "" {
+			processCfg["generation-timeout"] = d.cfg.GenerationTimeout
+		}
 		doc := map[string]any{
 			"log-level": "warn",
 			"log-file":  d.log,
@@ -369,7 +375,7 @@ func (d *Daemon) Start() error {
 				map[string]any{"name": "Second", "type": "filesystem", "location": filepath.Join(d.Dir, "wallets2")}},
 			"peers":       peers,
 			"unlocker":    map[string]any{"account-passphrases": []string{fileURL(filepath.Join(d.Dir, "pass.txt"))}},
-			"process":     map[string]any{"generation-passphrase": fileURL(filepath.Join(d.Dir, "pass.txt"))},
+			"process":     processCfg,
 			"permissions": d.cfg.Permissions,
 		}
 		b, _ := json.MarshalIndent(doc, "", " ")
